@@ -152,8 +152,8 @@ ScopeEnter(t, s) ==
      /\ val' = Append(val, Derive(p, m))
      /\ origin' = Append(origin, [p |-> p, m |-> m, sc |-> TRUE])
      /\ stack' = [stack EXCEPT ![t] = Append(@, [c |-> n, before |-> p])]
-     /\ toks' = toks \cup {n}
-     /\ scopes' = scopes \cup {n}
+     /\ scopes' = scopes \cup {n}     \* the Scope keeps its token private: no Detach(n) by hand
+     /\ UNCHANGED toks
      /\ Rec([NoOp EXCEPT !.op = "ScopeEnter", !.t = t, !.v = 100 + s, !.n = n])
   /\ Flag((IF SpanOf(val, Cur(stack, t)) # 0 THEN {"nested_scope"} ELSE {}) \cup
           (IF Len(stack[t]) + 1 >= DeepTarget THEN {"deep"} ELSE {}))
@@ -190,7 +190,7 @@ Spec == Init /\ [][Next]_vars
 TypeOK == /\ Len(origin) = Len(val)
           /\ \A c \in 1..NCtx : val[c] \in [Keys -> Val \cup {0}] /\ origin[c].p \in 0..(c - 1)
           /\ \A t \in Threads : \A i \in 1..Len(stack[t]) : stack[t][i].c \in Ctxs
-          /\ toks \subseteq Ctxs /\ scopes \subseteq toks
+          /\ toks \subseteq Ctxs /\ scopes \subseteq Ctxs
 
 \* "the most recent binding of a key is the one returned": walk the derivation chain
 RECURSIVE Chain(_, _)
